@@ -383,12 +383,12 @@ def gen_cases(rng, tier):
     cases += aspath_cases(rng, 150 if q else 1500)
     cases += aspath_cases(rng, 12 if q else 100, regex_p=1.0, cls='aspath_regex')
     cases += community_cases(rng, 120 if q else 1200)
-    cases += chain_cases(rng, 250 if q else 3000)
+    cases += chain_cases(rng, 250 if q else 2400)
     cases += length_cases(rng, 6 if q else 60)
     cases += api_cases(rng, 30 if q else 400)
     cases += med_cases(rng)
     cases += crud_directed(rng)
     if not q:
         for _ in range(20): cases += crud_directed(rng)[:6]
-    cases += crud_cases(rng, 400 if q else 5000, 14 if q else 30)
+    cases += crud_cases(rng, 400 if q else 3500, 14 if q else 30)
     return cases
